@@ -138,6 +138,29 @@ start :: fn do
     pr(1)
 end
 '''
+# externals: their purity is what their declaration says
+T_PURE_TYPE_EXTERNAL = '''
+ximp: fn -> int : external
+xpur: pu -> int : external
+takes :: fn q: pu -> int -> int do ret q() end
+start :: fn do
+    __alt1(fn do
+               a1: pu -> int = __ealt2(xpur, ximp)
+           end,
+           fn do a2 :: takes(__ealt2(xpur, ximp)) end,
+           fn do
+               p3 :: pu -> int do
+                   k3 :: __ealt2(xpur, ximp)
+                   ret k3()
+               end
+           end,
+           fn do
+               k4 :: __ealt2(xpur, ximp)
+               a4: pu -> int = k4
+           end)
+    pr(1)
+end
+'''
 # a pure function nested in an impure one: the enclosing function's mutable locals are mutable variables too
 XN = [("n1 :: lc", False), ("n2 :: p + lc + op", False), ("n3 :: lm", True), ("n4 :: lm + 1", True), ("lm = 2", True), ("lm += 1", True), ("n5 :: if lm > 0 do 1 else 2 end", True),
       ("n6 :: [lm]", True), ("n7 :: (lc, lm)", True), ("n8 :: mg", True), ("n9 :: Bl { x: lm }", True), ("n10 :: lb.x", False)]
@@ -192,7 +215,8 @@ def run(tier):
     files = {"other.sy": "oc :: 1\nom := 1\n"}
     jobs = [{"name": "assign_to_constant", "core": "assignment-target", "module": "checks.C04", "spec": "assign", "text": T_ASSIGN, "files": files}] + [{"name": "pure_function_body@" + n, "core": "pure-body(%s)" % n, "module": "checks.C04", "spec": "pure", "text": pure_text(body)} for n, body in NESTS] + [
             {"name": "pure_type_given_impure", "core": "pure-type", "module": "checks.C04", "spec": "pure_type", "text": T_PURE_TYPE},
-            {"name": "pure_type_given_impure_through_fn_annotation", "core": "pure-type-through-fn-annotated-alias", "module": "checks.C04", "spec": "pure_type", "text": T_PURE_TYPE_FN_ALIAS}] + \
+            {"name": "pure_type_given_impure_through_fn_annotation", "core": "pure-type-through-fn-annotated-alias", "module": "checks.C04", "spec": "pure_type", "text": T_PURE_TYPE_FN_ALIAS},
+            {"name": "pure_type_given_impure_external", "core": "pure-type-given-external", "module": "checks.C04", "spec": "pure_type", "text": T_PURE_TYPE_EXTERNAL}] + \
            [{"name": "nested_pure_function@" + n, "core": "nested-pure(%s)" % n, "module": "checks.C04", "spec": "nested", "text": nested_text(b)} for n, b in NESTED]
     return ktcrun.run_check("C04", tier, jobs, t0, ktcrun.KTC_FUNCTIONS,
                             {"assignment_targets": len(TARGETS), "pure_body_constructs": len(XS), "nest_kinds": len(NESTS), "nest_depth": "<= 3 (closure in if in loop)"},
